@@ -235,6 +235,7 @@ fn cli_level(rep: &Report) {
     let alice = Party::new(seed, "alice", "alicepw");
     let bob = Party::new(seed, "bob", "bobpw");
     let kr = crate::fx::keyring(&[(&alice, false), (&bob, true)]);
+    let kr_unknown = crate::fx::keyring(&[(&bob, true)]);
     let p = plaintext(seed ^ 0x3c, CS + 700);
     let f = r::write_key_file(&alice.sk, &bob.pk, &derive32(seed, "c03-cli-e"), &derive32(seed, "c03-cli-p"), &p, &[CS, 700]).unwrap();
     let salt = derive32(seed, "c03-cli-salt");
@@ -278,6 +279,13 @@ fn cli_level(rep: &Report) {
     pz[CS..].iter_mut().for_each(|b| *b = 0);
     let fz = r::write_key_file(&alice.sk, &bob.pk, &derive32(seed, "c03-cli-ez"), &derive32(seed, "c03-cli-pz"), &pz, &[CS, CS]).unwrap();
     let qz = r::write_pass_file_with_key(&r::pass_key(b"filepw", &salt), &salt, &pz, &[CS, CS]);
+    // an authentic key-mode file decrypted with a keyring that does not contain the sender, to stdout and to -o:
+    // what is reported about the unknown key must not end up in the plaintext
+    for out_kind in 0..3u8 {
+        for in_kind in 0..2u8 {
+            jobs.push(("key/authentic-sender-unknown".to_string(), f.clone(), true, true, out_kind, in_kind));
+        }
+    }
     for (mode, file) in [("key", &fz), ("pass", &qz)] {
         for out_kind in 0..3u8 {
             jobs.push((format!("{}/authentic-zero-final-chunk", mode), file.clone(), true, mode == "key", out_kind, 0));
@@ -301,7 +309,7 @@ fn cli_level(rep: &Report) {
             if *in_kind == 0 {
                 sc.write("in.ktl", bytes);
             }
-            sc.write("kr.txt", kr.as_bytes());
+            sc.write("kr.txt", if name.ends_with("sender-unknown") { kr_unknown.as_bytes() } else { kr.as_bytes() });
             if *out_kind == 1 {
                 sc.write("out.bin", &vec![b'Q'; 300_000]);
             }
@@ -329,7 +337,7 @@ fn cli_level(rep: &Report) {
                 if got != *want {
                     return Err(format!("{} ({}): decryption succeeded but the output ({} bytes) is not identical to the complete original plaintext ({} bytes)", name, wname, got.len(), want.len()));
                 }
-            } else if *should_accept && (name.ends_with("authentic") || name.ends_with("zero-final-chunk")) {
+            } else if *should_accept && (name.ends_with("authentic") || name.ends_with("zero-final-chunk") || name.ends_with("sender-unknown")) {
                 return Err(format!("{} ({}): authentic file rejected: {}", name, wname, out.summary()));
             }
             Ok(())
